@@ -53,7 +53,7 @@ Num(v) == IF IsFloat(v) THEN v - FloatBase ELSE IF IsNeg(v) THEN NegBase - v ELS
 Sat(cd, v0) ==
   LET v == Num(v0) IN
   CASE cd.k = "none"    -> TRUE
-    [] cd.k = "eq"      -> v = Num(cd.n)          \* the stated value is a code too
+    [] cd.k = "eq"      -> v = Num(cd.n) \/ (v0 = TrueV /\ cd.n = 1)         \* the stated value is a code too; True == 1
     [] cd.k = "lt"      -> v < cd.n
     [] cd.k = "gt"      -> v > cd.n
     [] cd.k = "lte"     -> v <= cd.n
